@@ -195,6 +195,9 @@ class Call2Mixin:
             n_ = self.fresh_int('nargs')
             self.assume(n_ >= 0)
             ev_.args = VSeq(z3.Array(self.path.fresh_name('excargs'), z3.IntSort(), Obj), n_, 'obj')
+          if exc in ('queue.Empty', 'queue.Full'):     # the callee tested the waited-for condition
+            self.seq += 1
+            self.last_cond_check = self.seq
           env3 = dict(env)
           env3['raised'] = ev_
           for e in posts:
